@@ -8,7 +8,7 @@
 //! fresh processes (ASLR, shifted heap).
 
 use crate::framework::{Check, Failure, RunReport, Tier};
-use crate::host::{Driver, GcSched, Host, Outcome, Run, RunSpec, new_interp};
+use crate::host::{Driver, GcSched, Host, Outcome, Run, RunSpec, new_interp, new_interp_flavoured};
 use crate::proggen::{GenCfg, HoleVariant, Node};
 use crate::progscn::ProgCase;
 use crate::rng::{Rng, Tape, hash_str};
@@ -35,6 +35,9 @@ pub struct Inst {
     /// compiled while other instances have come and gone)
     #[serde(default)]
     pub followup: Option<ProgCase>,
+    /// which simulated RegExp engine this instance's host installed (0 = the default one)
+    #[serde(default)]
+    pub regexp_flavour: u8,
 }
 
 #[derive(Clone, Debug, Serialize, Deserialize)]
@@ -136,7 +139,7 @@ fn unreachable_spec() -> RunSpec {
 fn solo_trace(i: &Inst, fuel: u64) -> (String, u64) {
     tsrun::verif::reset();
     tsrun::verif::set_fuel(Some(fuel * 2));
-    let mut h = new_interp(i.clock_start, i.random_seed);
+    let mut h = new_interp_flavoured(i.clock_start, i.random_seed, i.regexp_flavour);
     let mut p = Phased::new(specs_of(i, fuel));
     while p.advance(&mut h) {}
     let instr = tsrun::verif::instructions();
@@ -183,6 +186,15 @@ pub fn gen_instance(rng: &mut Rng, prefix: &str) -> Inst {
             case.tree.kids.insert(at, Node::leaf("__log.push(\"ns:\" + Object.keys(__na).join(\",\") + \":\" + __na.a0);"));
         }
     }
+    if rng.chance(0.5) {
+        // the same few patterns in every instance: what they match depends on the instance's RegExp engine
+        let at = 3.min(case.tree.kids.len());
+        let k = rng.below(2);
+        case.tree.kids.insert(at, Node::leaf([
+            "__log.push(\"rx:\" + \"aXbX.c\".replace(/x/g, \"_\") + /a.c/.test(\"abc\") + \"A1b2\".split(/[a-z]/).join(\"|\"));",
+            "__log.push(\"rx:\" + /^[A-Z]+$/.test(\"abc\") + \"a.c abc\".replace(/a.c/, \"#\") + (\"xX\".match(/x/g) || []).length);",
+        ][k]));
+    }
     let followup = if rng.chance(0.45) {
         let mut fcfg = GenCfg::swarm(rng, 0);
         fcfg.size = 3 + rng.below(8);
@@ -207,6 +219,7 @@ pub fn gen_instance(rng: &mut Rng, prefix: &str) -> Inst {
         clock_start: 1_600_000_000_000 + rng.below(1_000_000) as i64,
         random_seed: rng.next_u64(),
         followup,
+        regexp_flavour: *rng.pick(&[0u8, 0, 0, 1, 2]),
     }
 }
 
@@ -235,6 +248,7 @@ pub fn corpus_instance(rng: &mut Rng, k: usize) -> Inst {
         clock_start: 1_600_000_000_000 + rng.below(1_000_000) as i64,
         random_seed: rng.next_u64(),
         followup,
+        regexp_flavour: *rng.pick(&[0u8, 0, 0, 1, 2]),
     }
 }
 
@@ -404,7 +418,7 @@ impl Check for C12 {
                     }
                     if hosts[i].is_none() {
                         let inst = &scn.instances[i];
-                        hosts[i] = Some(new_interp(inst.clock_start, inst.random_seed));
+                        hosts[i] = Some(new_interp_flavoured(inst.clock_start, inst.random_seed, inst.regexp_flavour));
                         runs[i] = Some(Phased::new(specs_of(inst, scn.fuel)));
                         rep.bump("instance_created_while_others_run", (alive.len() < k || last != usize::MAX) as u64);
                     }
@@ -454,7 +468,7 @@ impl Check for C12 {
             Mode::PriorLifetimes => {
                 let mut out = Vec::new();
                 for inst in &scn.instances {
-                    let mut h = new_interp(inst.clock_start, inst.random_seed);
+                    let mut h = new_interp_flavoured(inst.clock_start, inst.random_seed, inst.regexp_flavour);
                     let mut r = Phased::new(specs_of(inst, scn.fuel));
                     while r.advance(&mut h) {}
                     out.push(r.trace());
@@ -476,13 +490,13 @@ impl Check for C12 {
                         cmd_txs.push(tx);
                         let done_tx = done_tx.clone();
                         let specs = specs_of(inst, scn.fuel);
-                        let (cs, rs) = (inst.clock_start, inst.random_seed);
+                        let (cs, rs, rf) = (inst.clock_start, inst.random_seed, inst.regexp_flavour);
                         let fuel = scn.fuel;
                         sc.spawn(move || {
                             // Interpreter is !Send: built and owned by its thread
                             tsrun::verif::reset();
                             tsrun::verif::set_fuel(Some(fuel * 2));
-                            let mut h = new_interp(cs, rs);
+                            let mut h = new_interp_flavoured(cs, rs, rf);
                             let mut r = Phased::new(specs);
                             let mut fin = false;
                             while let Ok(cmd) = rx.recv() {
